@@ -50,7 +50,11 @@ func c02Ownership(p *Prog, r *Report) {
 	r.Rule(rule, "pendingRequests.pending and pendingRequests.streams are accessed only by methods of pendingRequests and its constructor")
 	pr := p.Named("proxycore", "pendingRequests")
 	for _, fname := range []string{"pending", "streams"} {
-		f := p.Field("proxycore", "pendingRequests", fname)
+		pred := isSyncMap
+		if fname == "streams" {
+			pred = isInt16Chan
+		}
+		f := p.FieldRole("proxycore", "pendingRequests", fname, pred)
 		var bad []string
 		n := 0
 		for _, acc := range fieldAccesses(p.ScopedFuncs("proxycore", "proxy"), f) {
@@ -70,8 +74,8 @@ func c02Ownership(p *Prog, r *Report) {
 func c02StreamAlloc(p *Prog, r *Report) {
 	const rule = "C02.stream-alloc"
 	r.Rule(rule, "store(): the id received from the free list is the key of pending.Store and the result, -1 when the list is empty; loadAndDelete(): the id goes back to the free list, and the request is returned, only when LoadAndDelete removed the entry for that same id; the free list is created with capacity max and filled with 0..max-1")
-	streamsF := p.Field("proxycore", "pendingRequests", "streams")
-	pendingF := p.Field("proxycore", "pendingRequests", "pending")
+	streamsF := p.FieldRole("proxycore", "pendingRequests", "streams", isInt16Chan)
+	pendingF := p.FieldRole("proxycore", "pendingRequests", "pending", isSyncMap)
 	// ---- store
 	{
 		fn := getPendingRoles(p).store
@@ -621,7 +625,7 @@ func c02ReplyStream(p *Prog, r *Report) {
 // privateFrames: frames sent for a re-prepare are private copies.
 func privateFrames(p *Prog, r *Report, rule string) {
 	r.Rule(rule, "a prepareRequest's frame, and the frame put into the prepared cache, are fresh copies with their own header (the writer rewrites stream id and length of whatever frame it sends)")
-	prepF := p.Field("proxycore", "prepareRequest", "prepare")
+	prepF := p.FieldRole("proxycore", "prepareRequest", "prepare", isRawFramePtr)
 	entryF := p.Field("proxycore", "PreparedEntry", "PreparedFrame")
 	isFreshCopy := func(v ssa.Value) (bool, string) {
 		for _, o := range origins(v) {
@@ -725,7 +729,14 @@ func c02StreamRelease(p *Prog, r *Report) {
 		arg := cs.Common().Args[len(cs.Common().Args)-1]
 		why := ""
 		switch {
-		case rootFn(fn) == pr.closing:
+		case rootFn(fn) == pr.closing || func() bool {
+			for _, rc := range rangeCallsOf(p, rootFn(fn)) {
+				if rootFn(rc.Parent()) == pr.closing {
+					return true
+				}
+			}
+			return false
+		}():
 			why = "notification of a dead connection"
 		case func() bool {
 			for _, o := range origins(arg) {
